@@ -60,7 +60,9 @@ pub mod lab {
     pub const TABLE_ORDER_SEEN: u32 = 43;
     pub const CLONE_PANIC: u32 = 44;
     pub const UNINIT_ADOPT: u32 = 45;
-    pub const NAMES: [&str; 46] = [
+    pub const CLONE_FROM: u32 = 46;
+    pub const CLONE_FROM_SAME: u32 = 47;
+    pub const NAMES: [&str; 48] = [
         "group>=2_collected",
         "group>=3_collected",
         "zero_count_death_with_records",
@@ -107,6 +109,8 @@ pub mod lab {
         "table_order_observed",
         "payload_clone_panicked_in_make_mut",
         "adopted_before_assume_init",
+        "clone_from",
+        "clone_from_same_object",
     ];
 }
 
